@@ -1,5 +1,6 @@
 """C07 — after commit the tree is that of a fresh parse, for any edit history."""
 import wire
+from props import edit7 as X
 from props import editlib as E
 from props import treelib as T
 
@@ -9,7 +10,26 @@ RULE = ("edit histories (same operation alphabet as C06, 1..8 operations, raw ob
         "11 seed configs, banner/macro-bearing random configs and plain random configs; all four syntaxes; ignore_blank_lines on/off; "
         "auto_commit on, or off with explicit commits and search probes in between. After every step on a committed state the full "
         "dump (texts, line numbers, parents, stored child lists) is compared with a from-scratch CiscoConfParse of the same texts "
-        "and options; a double commit is appended to every history. non-trivial = at least one successful mutation; distinct by request.")
+        "and options; a double commit is appended to every history. "
+        "Coverage streams (harness/covreport.py, notes/coverage/C07.json; runner props/edit7.py, model Ccp.Model.EditX, channel editx): "
+        "900 more histories over the EXTENDED alphabet -- ConfigList.remove(obj); obj.delete() on an object that is no longer in the "
+        "list (auto_commit off, popped / deleted meanwhile -> ConfigListItemDoesNotExist); payloads handed over as line objects "
+        "instead of strings (insert, insert_before/after, obj.insert_before/after, append_to_family); malformed calls "
+        "(insert(<not an int>, ..) -> ValueError, insert(k, None / 5 / [..] / bytes) -> TypeError, insert_before/after(regex, <bad "
+        "value>) -> ValueError, remove(<not a line object>) -> InvalidParameters: state must not change); and search probes of all 16 "
+        "guarded entry points (find_objects, find_object_branches, find_parent_objects, find_parent_objects_wo_child, "
+        "find_child_objects, CiscoConfParse.re_search_children / re_match_iter_typed, and on a line object all_parents, lineage, "
+        "geneology, re_match, re_search, re_search_children, re_match_typed, re_match_iter_typed, re_list_iter_typed), nine argument "
+        "forms each (string / [string] / compiled / line-object specs, list and two-argument forms, exactmatch, ignore_ws, "
+        "escape_chars, recurse, reverse, regex_groups, empty_branches). Every third history is 'stale-probe': auto_commit off, a list "
+        "insert or family append, 0..2 operations that are not a commit, 2..4 probes of random kinds (must all refuse), commit, the "
+        "same probes (must all answer, and only with line objects of the committed list). 30 % of these histories run under one more "
+        "parse option set: debug 1/2 (the 'if debug' statements of delete / append / insert_after), tuple config, "
+        "auto_indent_width 1/2/3/4/8 (an input of the model: append_to_family's indent unit). Every sixth extended history starts "
+        "'blank-above-comment': ignore_blank_lines on, and an edit leaves a blank / whitespace-only line directly above an indented "
+        "comment (it changes the comment exception until the commit drops it; seeded change C07d is now caught in the plain quick budget). The oracle also requires that remove / "
+        "delete take exactly the line and its descendants out of the list. "
+        "non-trivial = at least one successful mutation; distinct by request.")
 LEVEL_TEXT = ("Theorems (Lean 4, Ccp.Props.C07, every config, option set and history): bootstrap is idempotent on its own output (also with "
               "ignore_blank_lines: the re-bootstrapping loop ends in a fixed point of the blank-line filter; it only ever drops blank lines), "
               "hence parse = one bootstrap; commit of any state yields tree = parse(texts), texts = tree.texts, flags cleared; commit is "
@@ -19,10 +39,32 @@ LEVEL_TEXT = ("Theorems (Lean 4, Ccp.Props.C07, every config, option set and his
               "successful append_to_family makes the state stale, staleness survives every operation except commit, a search probe raises "
               "NotImplementedError exactly when stale, and answers again after commit; nothing else makes a state stale. Line numbers are "
               "positions and child lists are derived from the parent indices in the model's tree, so tree equality is equality of texts, line "
-              "numbers, parents and children. Tied to the code by differential runs of histories.")
+              "numbers, parents and children. EXTENDED ALPHABET (Ccp.Model.EditX embeds the base operations unchanged -- base_embedded -- "
+              "and adds ConfigList.remove, delete of an object that is gone, one probe per guarded search entry point, list-level inserts "
+              "with a line-object payload, four malformed calls): stepX_preserves_fresh, runX_committed_fresh, autoX_commit_always_fresh, "
+              "explicit_commitX_fresh -- the invariant 'no uncommitted change => tree = parse(texts)' holds in every state reached by any "
+              "history over the extended alphabet, after every single operation with auto_commit on, and directly after an explicit commit; "
+              "remove_is_delete / remove_spec -- remove(obj) is obj.delete(): on a committed state it succeeds and takes exactly the object "
+              "and its descendants out; deleteAny_gone / deleteAny_present -- delete on an object that left the list raises "
+              "ConfigListItemDoesNotExist and changes nothing; malformed_rejected -- each malformed call raises the code's error class and "
+              "changes nothing; listInsObj_spec -- a line-object payload is inserted even when blank under ignore_blank_lines (the string "
+              "form is refused), otherwise it is the string form; search_refuses_iff_stale_partial -- each of the FIFTEEN guarded entry "
+              "points never changes the state, raises NotImplementedError exactly when stale and answers otherwise; staleX_refuses -- "
+              "after a list insert and any extended operations other than commit every guarded search refuses, after commit it answers. "
+              "PARTIAL: the full statement (all sixteen entry points) is false for the code as it is -- guarded_all_but_one, "
+              "search_unguarded_answers: CiscoConfParse.re_match_iter_typed has no guard (known finding FC07a). "
+              "Tied to the code by differential runs of histories.")
 LEVEL_NOTE = ("Trusted: Lean kernel, standard axioms, harness. The integer checkpoint is abstracted to a boolean (assumes the sum of line "
               "identifiers changes when a line is inserted; a 64-bit hash collision is not modelled). All C07 theorems of DESIGN.md are proved "
-              "at full strength; nothing is partial.")
+              "at full strength; the one partial theorem is search_refuses_iff_stale_partial of the extended alphabet (the code lacks the guard "
+              "in CiscoConfParse.re_match_iter_typed: FC07a, notes/proposed-fixes/C07-1.patch + C07-1.model-followup.patch). The model has ONE "
+              "probe behaviour for all guarded searches (each starts with the same guard); which entry points carry the guard, and that the "
+              "find_* guards of find_parent_objects / find_child_objects / find_parent_objects_wo_child are shadowed by the guards of the "
+              "searches they call, is measured by the probe stream. What the searches ANSWER is C04's subject, not compared here (only: "
+              "answers on a committed state consist of objects of that commit). Anchored statements never executed by the quick run: 335 of "
+              "651 before the coverage streams, 112 after (dead branches of append_to_family, factory=True branches -- factory is outside "
+              "C07's quantifier --, argument validation of the searches and of ConfigList.__init__, delete() with a stale line number on an "
+              "uncommitted state -- excluded by the assumption below).")
 ASSUMPTIONS = ["hash((linenum, text)) sums differ after an insertion (no 64-bit collision)", "object handles are used only on a committed state"]
 TRUSTED = ["regex oracle rows / substituted texts"]
 EXHAUSTIVE = {"quick": False, "thorough": False}
@@ -54,6 +96,28 @@ def cases(rng, tier):
             ops = burst + [["probe"]] + ops if not auto else ops + burst + [["probe"]]
         ops += [["commit"], ["commit"], ["probe"]]
         yield E.mk_case(syntax, ign, auto, lines, ops)
+    # coverage streams (notes/coverage/C07.json), over the extended alphabet of props/edit7.py (model Ccp.Model.EditX)
+    HIST_OPTS = [{"debug": 1}, {"debug": 2}, {"aiw": 3}, {"aiw": 2}, {"aiw": 1}, {"aiw": 8}, {"form": "tuple"}, {"debug": 1, "aiw": 4}]
+    for i in range({"quick": 900, "thorough": 40000, "search": 1500}[tier]):
+        syntax = rng.choice(T.SYNTAXES)
+        auto = rng.random() < 0.5
+        ign = rng.random() < 0.35
+        r = rng.random()
+        lines = rng.choice(E.SEED_CONFIGS) if r < 0.4 else T.rand_config(rng, 8, r < 0.75, None)
+        if i % 3 == 0:
+            auto = False
+            ops = X.stale_probe_history(rng) + X.rand_ops_x(rng, rng.choice([0, 1, 2]), auto)
+        else:
+            ops = X.rand_ops_x(rng, rng.choice([1, 2, 3, 5, 8]), auto)
+        if i % 6 == 1:
+            ign = True
+            lines, first = X.blank_above_comment_case(rng)
+            ops = first + ops
+        ops += [["commit"], X.rand_probe(rng), ["commit"], ["probe"]]
+        c = E.mk_case(syntax, ign, auto, lines, ops, "extended")
+        if rng.random() < 0.3:
+            c["opts"] = dict(rng.choice(HIST_OPTS))
+        yield c
 
 
 def neighbours(case, rng):
@@ -62,12 +126,15 @@ def neighbours(case, rng):
         if len(ops) > 1 and rng.random() < 0.5:
             del ops[rng.randrange(len(ops))]
         else:
-            ops.insert(rng.randrange(len(ops) + 1), E.rand_ops(rng, 1, case["auto_commit"])[0])
-        yield E.mk_case(case["syntax"], case["ignore_blank"], case["auto_commit"], case["lines"], ops)
+            ops.insert(rng.randrange(len(ops) + 1), X.rand_ops_x(rng, 1, case["auto_commit"])[0])
+        c = E.mk_case(case["syntax"], case["ignore_blank"], case["auto_commit"], case["lines"], ops)
+        if case.get("opts"):
+            c["opts"] = dict(case["opts"])
+        yield c
 
 
 def impl(case):
-    return E.run_history(case)
+    return X.run_history(case)
 
 
 def oracle(case, ans):
@@ -90,12 +157,43 @@ def oracle(case, ans):
                         fails.append(f"second commit at step {idx - 1} changed the state")
             elif k in ("ins", "atf") and status == "ok" and not case["auto_commit"]:
                 refuse = True
+            elif k in ("rem", "del", "dela") and status == "ok" and _at is not None and steps[idx - 1][3] is not None:
+                # ConfigList.remove(obj) / obj.delete() take the object and all its descendants (as the links of the
+                # committed tree before the call have them) out of the list, and nothing else
+                before, pd = steps[idx - 1][2], steps[idx - 1][3]
+                gone = {_at}
+                for j, par in enumerate(pd["parents"]):
+                    q = j
+                    while pd["parents"][q] != q and q not in gone:
+                        q = pd["parents"][q]
+                    if q in gone:
+                        gone.add(j)
+                want = [t for j, t in enumerate(before) if j not in gone]
+                if case["auto_commit"] and case["ignore_blank"]:
+                    want = T.ref_kept(want, case["syntax"] == "ios", True)
+                if texts != want:
+                    fails.append(f"{op} at step {idx - 1} on line {_at}: texts {before!r} -> {texts!r}, expected {want!r} "
+                                 f"(the line and its descendants {sorted(gone)} removed)")
+            elif k in X.MALFORMED:
+                # a call with a malformed argument is rejected and changes nothing
+                if not status.startswith("err:") or texts != steps[idx - 1][2]:
+                    fails.append(f"malformed call {op} at step {idx - 1}: status {status}, texts {steps[idx - 1][2]!r} -> {texts!r}")
             elif k == "probe":
+                if status == "ok-stale-objects":
+                    fails.append(f"search {op} at step {idx - 1} answered on a committed state with line objects that are not in the "
+                                 "committed list")
+                    status = "ok"
                 if refuse and status == "ok":
-                    fails.append(f"search answered at step {idx - 1} although an insert is uncommitted")
+                    fails.append(f"search {op[:2]} answered at step {idx - 1} although an insert is uncommitted")
                 if not refuse and status != "ok":
                     fails.append(f"search refused at step {idx - 1} on a committed state: {status}")
     return fails[:3]
+
+
+def known_id(case, failure):
+    if "although an insert is uncommitted" in failure and "'crmit'" in failure:
+        return "FC07a"
+    return None
 
 
 def nontrivial(case):
@@ -103,11 +201,15 @@ def nontrivial(case):
 
 
 def describe(case):
-    return {k: case[k] for k in ("syntax", "ignore_blank", "auto_commit", "lines", "ops")}
+    return {k: case[k] for k in ("syntax", "ignore_blank", "auto_commit", "lines", "ops", "opts") if k in case}
 
 
 def buckets(case, ans):
     out = ["syntax:" + case["syntax"], "auto:%d" % case["auto_commit"], "ignore_blank:%d" % case["ignore_blank"]]
     for op, part in zip(case["ops"], ans.split("#")[1:]):
-        out.append("op:" + op[0] + ":" + part.split("~")[0].split("@")[0])
+        name = op[0] + ("-" + op[1] if op[0] == "probe" and len(op) > 1 else "") + ("-obj" if op[-1] == "obj" else "")
+        out.append("op:" + name + ":" + part.split("~")[0].split("@")[0])
+    out.append("origin:" + case.get("_origin", "gen"))
+    if case.get("opts"):
+        out += T.opt_buckets(case)
     return out
